@@ -67,8 +67,9 @@ def collect_diffs(path, decisions):
     local_diff = []
     remote_diff = []
     for d in decisions:
-        ld = adjust_patch_level(path, d.common_path, d.local_diff)
-        rd = adjust_patch_level(path, d.common_path, d.remote_diff)
+        # One-sided decisions have no diff (None) for the other side
+        ld = adjust_patch_level(path, d.common_path, d.local_diff) or []
+        rd = adjust_patch_level(path, d.common_path, d.remote_diff) or []
         local_diff.extend(ld)
         remote_diff.extend(rd)
     local_diff = combine_patches(local_diff)
